@@ -7,7 +7,15 @@ tie:     translators (AST, fail-closed, cross-checked against the imported modul
          correspondence streams (loader, equality, jsv-vs-jsonschema, main) through generated cases files.
 search:  the real code against the property's own oracle (documents built by lib/c18_docs.py, the real jsonschema under root
          MetaModel as validity reference, python -m generator runs for the gate); witnesses for failing checker sites are
-         synthesised from the schema file.
+         synthesised from the schema file.  Shape coverage (c18_docs.schema_coverage) is DERIVED from lsp.schema.json: for every
+         (object definition, property) one document per alternative of every anyOf/oneOf, per listed JSON type, per enum value,
+         and per array length 0 / 1 / 2 wherever an array is allowed (`params` as one type, [], [T], [T, U]); each must load and
+         read back (~), and documents of one site that differ in shape must compare unequal.  A converter that maps one shape
+         to another (unwraps [T], drops an element, sorts, de-duplicates) fails on one of them with the document as replay.
+tie of load_readback to model.py: x_modelpy accepts as `converter=` only partial_apply / list_converter applications (recognised
+         by their BODIES: closure, lambda, comprehension or list(map(..)) forms), `lambda x: C(**x)`, the uuid lambda and
+         positional dispatch functions; any other converter (a new function, a changed factory body) is REJECTED - the
+         compatibility checker `compat` (C18.compat_current) then is not re-proved and the streams above must find the input.
 known findings: keys loader:<kind> | loader:<Def>.<prop> | eq-raises:<Class> | eq-ignores:<attr> | gate:<edit kind> | merge | purity:<aspect>
 """
 import concurrent.futures
@@ -25,12 +33,16 @@ from mmlib import cj as plain_cj
 LEVEL = "proof"
 RULE = ("documents: the committed lsp.json (whole); one small document per feature (every type kind incl. integerLiteral/booleanLiteral, "
         "map key kinds, extends/mixins present/absent/empty, every annotation at every node class, params as array, enumerations of each base "
-        "type); seeded random schema-valid edits of samples of lsp.json (drop/add annotation, reorder, add feature declarations, shuffle keys, "
+        "type); shape coverage derived from lsp.schema.json: per (definition, property) one minimal document per anyOf/oneOf alternative, listed "
+        "JSON type, enum value, boolean, and array length 0/1/2 (length 1 once per item alternative, length 2 as consecutive pairs of alternatives) - "
+        "457 documents over 91 sites for the committed schema, those using a recorded finding (integerLiteral, booleanLiteral, StructureLiteral "
+        "annotations) attributed to it; seeded random schema-valid edits of samples of lsp.json (drop/add annotation, reorder, add feature declarations, shuffle keys, "
         "extends); 47 single schema-violating edits of a base document (missing required key, unknown property, wrong JSON type, bad enum, "
         "type expression not an object, null annotation) and 5 extension files violating the schema only at their top level; model groups for "
         "create_lsp_model, incl. first files with empty sections, each merged twice on the same in-memory documents (inputs compared before/after, "
         "earlier model re-read, first document loaded alone afterwards); all pairs of 12 edited documents plus "
-        "single-skeleton-attribute mutation pairs for ==; schema-violating edits x plugins for the gate. A case counts as distinct "
+        "single-skeleton-attribute mutation pairs and shape pairs (two coverage documents of one site in different shapes: T vs [T], [] vs [T], "
+        "[T] vs [T, U]; quick: all cross-shape pairs of array sites + 40 sampled others) for ==; schema-violating edits x plugins for the gate. A case counts as distinct "
         "non-trivial by (stream, canonical input) hash; the empty document is the only trivial one.")
 
 PLUGINS_QUICK = ["python"]
@@ -330,6 +342,11 @@ def run(chk):
     quick = chk.tier == "quick"
     chk.trusted = V.STD_TRUSTED + [
         "translators lib/x_modelpy.py, lib/x_main.py, lib/x_schema.py (AST / JSON, fail-closed; x_modelpy cross-checked against attrs.fields and the origin of each __eq__, x_main against an observed run of main with a recording jsonschema.validate and a stub plugin)",
+        "x_main follows calls of module-level helper functions of __main__.py by splicing their bodies in at the call (parameters substituted, locals renamed apart, "
+        "a final `return` bound to the call's target; early returns / nested functions / star-arguments / recursion rejected): the inlining itself is trusted, "
+        "its result (effect order, schema object) is cross-checked against the observed run",
+        "lib/c18_docs.py: schema_coverage reads lsp.schema.json (type, properties, required, anyOf/oneOf, items, enum, const, $ref) to enumerate shapes; every document it "
+        "emits is re-checked against the real jsonschema under root MetaModel and against the Coq jsv",
         "hand-written semantics LSP.JSchema (draft-07 subset) and LSP.Loader (attrs __init__ order, converters, validators, Python == on lists/dicts/objects, effect order of main): validated by the correspondence streams, not verified",
         "jsonschema 4.23 under root {$ref: MetaModel} as the reference for 'schema-valid' in the streams (cross-checked against the Coq jsv on every stream document)",
         "specification choices of DESIGN C18: the relation ~ (jeqv), the structural skeleton (SKNAMES), numbers are integers, enumeration values typed by their base type",
